@@ -8,7 +8,7 @@
    UNITS / RESOLVE / LOWER correspondence streams of checks/c17.py. *)
 From Coq Require Import ZArith QArith String List Bool Reals.
 From Flocq Require Import Core BinarySingleNaN.
-Require Import Blots.Num Blots.UnitsBase Blots.gen.UnitsTable Blots.Units Blots.proofs.UnitsLaws Blots.proofs.UnitsFloat.
+Require Import Blots.Num Blots.UnitsBase Blots.gen.UnitsTable Blots.Units Blots.proofs.UnitsLaws Blots.proofs.UnitsFloat Blots.proofs.UnitsFloat2.
 Import ListNotations.
 Open Scope Z_scope.
 
@@ -293,3 +293,423 @@ Check C17_there_and_back_float_linear : forall ua ub la lb v,
     Rv r4 = Rv v * ((1 + e1) * (1 + e2) * (1 + e3) * (1 + e4)) /\
     Rabs (Rv r4 - Rv v) <= ((1 + u53) * (1 + u53) * (1 + u53) * (1 + u53) - 1) * Rabs (Rv v))%R.
 Print Assumptions C17_there_and_back_float_linear.
+
+(* ==== binary64, continued (coq/proofs/UnitsFloat2.v) =========================================================
+   Notation: [win a b x] is 2^a <= |x| <= 2^b;  [qq] = 1/(1 - 2^-53), so qq^n - 1 = n*2^-53 + O(2^-106) is the
+   accumulated relative error of n rounded operations whose factors (1+e) may also appear inverted (reciprocal
+   kind);  [is_lr u] = the unit is linear or reciprocal;  [cnum u] its coefficient as the binary64 the code holds;
+   [fin x] = valid, finite, non-zero binary64;  [finz x] = valid and finite (zero allowed);  [Kv] = 40. *)
+
+(* ---- (3) a decidable sufficient condition for "no intermediate leaves the normal range", on exponents only:
+   [tab_ok ua ub (a, b)] computes the exponent window of each of the four rounded operations of v -> B -> A from
+   floor(log2) of the two coefficients and the window [2^a, 2^b] of |v|, and checks each against [-1022, 1023].
+   It is sufficient ... *)
+Theorem C17_range_condition_sufficient : forall ua ub v w,
+  is_lr ua = true -> is_lr ub = true -> fin (cnum ua) -> fin (cnum ub) ->
+  fin v -> win (fst w) (snd w) (Rv v) -> tab_ok ua ub w = true ->
+  let r2 := through_base fl v ua ub in
+  let r4 := through_base fl r2 ub ua in
+  fin r2 /\ fin r4 /\ (Rabs (Rv r4 - Rv v) <= (qq ^ 4 - 1) * Rabs (Rv v))%R.
+Proof. exact there_and_back_float_lr. Qed.
+Check C17_range_condition_sufficient : forall ua ub v w,
+  is_lr ua = true -> is_lr ub = true -> fin (cnum ua) -> fin (cnum ub) ->
+  fin v -> win (fst w) (snd w) (Rv v) -> tab_ok ua ub w = true ->
+  let r2 := through_base fl v ua ub in
+  let r4 := through_base fl r2 ub ua in
+  fin r2 /\ fin r4 /\ (Rabs (Rv r4 - Rv v) <= (qq ^ 4 - 1) * Rabs (Rv v))%R.
+Print Assumptions C17_range_condition_sufficient.
+
+(* ... and it holds on the regenerated table (finite, exhaustive by vm_compute; bound = the table: every ordered
+   pair / triple of linear or reciprocal units of one category) for every |v| in [2^-40, 2^40] *)
+Theorem C17_table_ranges_ok : forall ua ub,
+  In ua all_units -> In ub all_units -> u_cat ua = u_cat ub -> is_lr ua = true -> is_lr ub = true ->
+  fin (cnum ua) /\ fin (cnum ub) /\ tab_ok ua ub (- Kv, Kv) = true.
+Proof. exact table_pair. Qed.
+Check C17_table_ranges_ok : forall ua ub,
+  In ua all_units -> In ub all_units -> u_cat ua = u_cat ub -> is_lr ua = true -> is_lr ub = true ->
+  fin (cnum ua) /\ fin (cnum ub) /\ tab_ok ua ub (- Kv, Kv) = true.
+Print Assumptions C17_table_ranges_ok.
+
+Theorem C17_table_ranges_ok_triples : forall ua ub uc,
+  In ua all_units -> In ub all_units -> In uc all_units -> u_cat ua = u_cat ub -> u_cat ub = u_cat uc ->
+  is_lr ua = true -> is_lr ub = true -> is_lr uc = true -> comp_ok ua ub uc (- Kv, Kv) = true.
+Proof. exact table_triple. Qed.
+Check C17_table_ranges_ok_triples : forall ua ub uc,
+  In ua all_units -> In ub all_units -> In uc all_units -> u_cat ua = u_cat ub -> u_cat ub = u_cat uc ->
+  is_lr ua = true -> is_lr ub = true -> is_lr uc = true -> comp_ok ua ub uc (- Kv, Kv) = true.
+Print Assumptions C17_table_ranges_ok_triples.
+
+(* hence C17_there_and_back_float_linear without any range hypothesis, for every pair of linear units of one
+   category of the table *)
+Theorem C17_there_and_back_float_linear_table : forall ua ub la lb v,
+  In ua all_units -> In ub all_units -> u_cat ua = u_cat ub ->
+  u_conv ua = Linear la -> u_conv ub = Linear lb ->
+  fin v -> win (- Kv) Kv (Rv v) ->
+  let r2 := through_base fl v ua ub in
+  let r4 := through_base fl r2 ub ua in
+  exists e1 e2 e3 e4,
+    (Rabs e1 <= u53 /\ Rabs e2 <= u53 /\ Rabs e3 <= u53 /\ Rabs e4 <= u53 /\
+    Rv r4 = Rv v * ((1 + e1) * (1 + e2) * (1 + e3) * (1 + e4)) /\
+    Rabs (Rv r4 - Rv v) <= ((1 + u53) * (1 + u53) * (1 + u53) * (1 + u53) - 1) * Rabs (Rv v))%R.
+Proof. exact there_and_back_float_linear_table. Qed.
+Check C17_there_and_back_float_linear_table : forall ua ub la lb v,
+  In ua all_units -> In ub all_units -> u_cat ua = u_cat ub ->
+  u_conv ua = Linear la -> u_conv ub = Linear lb ->
+  fin v -> win (- Kv) Kv (Rv v) ->
+  let r2 := through_base fl v ua ub in
+  let r4 := through_base fl r2 ub ua in
+  exists e1 e2 e3 e4,
+    (Rabs e1 <= u53 /\ Rabs e2 <= u53 /\ Rabs e3 <= u53 /\ Rabs e4 <= u53 /\
+    Rv r4 = Rv v * ((1 + e1) * (1 + e2) * (1 + e3) * (1 + e4)) /\
+    Rabs (Rv r4 - Rv v) <= ((1 + u53) * (1 + u53) * (1 + u53) * (1 + u53) - 1) * Rabs (Rv v))%R.
+Print Assumptions C17_there_and_back_float_linear_table.
+
+(* ---- (1a) the reciprocal kind too: linear and reciprocal units in any mix (the reciprocal kind inverts
+   factors, hence qq) *)
+Theorem C17_there_and_back_float_table : forall ua ub v,
+  In ua all_units -> In ub all_units -> u_cat ua = u_cat ub -> is_lr ua = true -> is_lr ub = true ->
+  fin v -> win (- Kv) Kv (Rv v) ->
+  let r2 := through_base fl v ua ub in
+  let r4 := through_base fl r2 ub ua in
+  fin r2 /\ fin r4 /\ (Rabs (Rv r4 - Rv v) <= (qq ^ 4 - 1) * Rabs (Rv v))%R.
+Proof. exact there_and_back_float_table. Qed.
+Check C17_there_and_back_float_table : forall ua ub v,
+  In ua all_units -> In ub all_units -> u_cat ua = u_cat ub -> is_lr ua = true -> is_lr ub = true ->
+  fin v -> win (- Kv) Kv (Rv v) ->
+  let r2 := through_base fl v ua ub in
+  let r4 := through_base fl r2 ub ua in
+  fin r2 /\ fin r4 /\ (Rabs (Rv r4 - Rv v) <= (qq ^ 4 - 1) * Rabs (Rv v))%R.
+Print Assumptions C17_there_and_back_float_table.
+
+(* ---- (2) float-level composition: fl(A->B->C) against fl(A->C), six rounded operations *)
+Theorem C17_composition_float : forall ua ub uc v w,
+  is_lr ua = true -> is_lr ub = true -> is_lr uc = true ->
+  fin (cnum ua) -> fin (cnum ub) -> fin (cnum uc) ->
+  fin v -> win (fst w) (snd w) (Rv v) -> comp_ok ua ub uc w = true ->
+  let r_ab := through_base fl v ua ub in
+  let r_abc := through_base fl r_ab ub uc in
+  let r_ac := through_base fl v ua uc in
+  fin r_abc /\ fin r_ac /\ (Rabs (Rv r_abc - Rv r_ac) <= (qq ^ 6 - 1) * Rabs (Rv r_ac))%R.
+Proof. exact composition_float_lr. Qed.
+Check C17_composition_float : forall ua ub uc v w,
+  is_lr ua = true -> is_lr ub = true -> is_lr uc = true ->
+  fin (cnum ua) -> fin (cnum ub) -> fin (cnum uc) ->
+  fin v -> win (fst w) (snd w) (Rv v) -> comp_ok ua ub uc w = true ->
+  let r_ab := through_base fl v ua ub in
+  let r_abc := through_base fl r_ab ub uc in
+  let r_ac := through_base fl v ua uc in
+  fin r_abc /\ fin r_ac /\ (Rabs (Rv r_abc - Rv r_ac) <= (qq ^ 6 - 1) * Rabs (Rv r_ac))%R.
+Print Assumptions C17_composition_float.
+
+Theorem C17_composition_float_table : forall ua ub uc v,
+  In ua all_units -> In ub all_units -> In uc all_units ->
+  u_cat ua = u_cat ub -> u_cat ub = u_cat uc ->
+  is_lr ua = true -> is_lr ub = true -> is_lr uc = true ->
+  fin v -> win (- Kv) Kv (Rv v) ->
+  let r_ab := through_base fl v ua ub in
+  let r_abc := through_base fl r_ab ub uc in
+  let r_ac := through_base fl v ua uc in
+  fin r_abc /\ fin r_ac /\ (Rabs (Rv r_abc - Rv r_ac) <= (qq ^ 6 - 1) * Rabs (Rv r_ac))%R.
+Proof. exact composition_float_table. Qed.
+Check C17_composition_float_table : forall ua ub uc v,
+  In ua all_units -> In ub all_units -> In uc all_units ->
+  u_cat ua = u_cat ub -> u_cat ub = u_cat uc ->
+  is_lr ua = true -> is_lr ub = true -> is_lr uc = true ->
+  fin v -> win (- Kv) Kv (Rv v) ->
+  let r_ab := through_base fl v ua ub in
+  let r_abc := through_base fl r_ab ub uc in
+  let r_ac := through_base fl v ua uc in
+  fin r_abc /\ fin r_ac /\ (Rabs (Rv r_abc - Rv r_ac) <= (qq ^ 6 - 1) * Rabs (Rv r_ac))%R.
+Print Assumptions C17_composition_float_table.
+
+(* ---- (1b) the temperature (affine) kind: an ABSOLUTE bound (relative error is meaningless near the offsets:
+   -273.15 C is 0 K).  [temp_bound ta tb a] = 2^-53 * (1 + 1/1024) * (A * a + B) with (A, B) by the to_kelvin
+   functions of the two units: K<->C (2, 274); K->F->K (8, 2037); F->K->F (8, 3666); C->C (4, 1093);
+   C->F->C (10, 4495); F->C->F (10, 5205); F->F (16, 11521); every finite v (zero, the offsets) up to 2^1000.
+   Each rounded operation contributes 2^-53 * |its exact result| (+ 2^-1075 in the subnormal range); the
+   constants are the accumulated sums, the offsets 273.15 / 32 and the factors 9/5, 5/9 entering B. *)
+Theorem C17_there_and_back_float_temperature : forall ua ub ta fa tb fb v,
+  u_conv ua = Temperature ta fa -> u_conv ub = Temperature tb fb ->
+  inverse_pair ta fa = true -> inverse_pair tb fb = true ->
+  finz v -> (Rabs (Rv v) <= bpow radix2 1000)%R ->
+  let r2 := through_base fl v ua ub in
+  let r4 := through_base fl r2 ub ua in
+  finz r4 /\ (Rabs (Rv r4 - Rv v) <= temp_bound ta tb (Rabs (Rv v)))%R.
+Proof. exact there_and_back_float_temperature. Qed.
+Check C17_there_and_back_float_temperature : forall ua ub ta fa tb fb v,
+  u_conv ua = Temperature ta fa -> u_conv ub = Temperature tb fb ->
+  inverse_pair ta fa = true -> inverse_pair tb fb = true ->
+  finz v -> (Rabs (Rv v) <= bpow radix2 1000)%R ->
+  let r2 := through_base fl v ua ub in
+  let r4 := through_base fl r2 ub ua in
+  finz r4 /\ (Rabs (Rv r4 - Rv v) <= temp_bound ta tb (Rabs (Rv v)))%R.
+Print Assumptions C17_there_and_back_float_temperature.
+(* the constants, pinned *)
+Example C17_temp_bound_constants :
+  (temp_bound TF_celsius_to_kelvin TF_kelvin_to_kelvin 1 = u53 * (1 + / 1024) * (2 * 1 + 274) /\
+   temp_bound TF_celsius_to_kelvin TF_fahrenheit_to_kelvin 1 = u53 * (1 + / 1024) * (10 * 1 + 4495) /\
+   temp_bound TF_fahrenheit_to_kelvin TF_celsius_to_kelvin 1 = u53 * (1 + / 1024) * (10 * 1 + 5205) /\
+   temp_bound TF_kelvin_to_kelvin TF_fahrenheit_to_kelvin 1 = u53 * (1 + / 1024) * (8 * 1 + 2037) /\
+   temp_bound TF_fahrenheit_to_kelvin TF_kelvin_to_kelvin 1 = u53 * (1 + / 1024) * (8 * 1 + 3666))%R.
+Proof. repeat split; reflexivity. Qed.
+
+(* ---- (4) at the level of what a user calls: the `convert` built-in on identifiers.  ANY two identifiers that
+   resolve to units of one category (aliases, case variants, the same unit twice: then the result is v itself),
+   every kind; [tab_bound ua ub a] is temp_bound for two temperature units and (qq^4 - 1) * a otherwise *)
+Theorem C17_builtin_there_and_back_float : forall a b ua ub v,
+  resolve_unit a = UOk ua -> resolve_unit b = UOk ub -> u_cat ua = u_cat ub ->
+  fin v -> win (- Kv) Kv (Rv v) ->
+  exists r1 r2,
+    builtin_convert (ANum v) (AStr a) (AStr b) = UOk r1 /\
+    builtin_convert (ANum r1) (AStr b) (AStr a) = UOk r2 /\
+    (Rabs (Rv r2 - Rv v) <= tab_bound ua ub (Rabs (Rv v)))%R.
+Proof. exact builtin_there_and_back_all_kinds. Qed.
+Check C17_builtin_there_and_back_float : forall a b ua ub v,
+  resolve_unit a = UOk ua -> resolve_unit b = UOk ub -> u_cat ua = u_cat ub ->
+  fin v -> win (- Kv) Kv (Rv v) ->
+  exists r1 r2,
+    builtin_convert (ANum v) (AStr a) (AStr b) = UOk r1 /\
+    builtin_convert (ANum r1) (AStr b) (AStr a) = UOk r2 /\
+    (Rabs (Rv r2 - Rv v) <= tab_bound ua ub (Rabs (Rv v)))%R.
+Print Assumptions C17_builtin_there_and_back_float.
+
+Theorem C17_builtin_there_and_back_temperature : forall a b ua ub ta fa tb fb v,
+  resolve_unit a = UOk ua -> resolve_unit b = UOk ub -> u_cat ua = u_cat ub ->
+  u_conv ua = Temperature ta fa -> u_conv ub = Temperature tb fb ->
+  finz v -> (Rabs (Rv v) <= bpow radix2 1000)%R ->
+  exists r1 r2,
+    builtin_convert (ANum v) (AStr a) (AStr b) = UOk r1 /\
+    builtin_convert (ANum r1) (AStr b) (AStr a) = UOk r2 /\
+    (Rabs (Rv r2 - Rv v) <= temp_bound ta tb (Rabs (Rv v)))%R.
+Proof. exact builtin_there_and_back_temperature. Qed.
+Check C17_builtin_there_and_back_temperature : forall a b ua ub ta fa tb fb v,
+  resolve_unit a = UOk ua -> resolve_unit b = UOk ub -> u_cat ua = u_cat ub ->
+  u_conv ua = Temperature ta fa -> u_conv ub = Temperature tb fb ->
+  finz v -> (Rabs (Rv v) <= bpow radix2 1000)%R ->
+  exists r1 r2,
+    builtin_convert (ANum v) (AStr a) (AStr b) = UOk r1 /\
+    builtin_convert (ANum r1) (AStr b) (AStr a) = UOk r2 /\
+    (Rabs (Rv r2 - Rv v) <= temp_bound ta tb (Rabs (Rv v)))%R.
+Print Assumptions C17_builtin_there_and_back_temperature.
+
+Theorem C17_builtin_composition_float : forall a b c ua ub uc v,
+  resolve_unit a = UOk ua -> resolve_unit b = UOk ub -> resolve_unit c = UOk uc ->
+  u_cat ua = u_cat ub -> u_cat ub = u_cat uc ->
+  is_lr ua = true -> is_lr ub = true -> is_lr uc = true -> fin v -> win (- Kv) Kv (Rv v) ->
+  exists r1 r2 r3,
+    builtin_convert (ANum v) (AStr a) (AStr b) = UOk r1 /\
+    builtin_convert (ANum r1) (AStr b) (AStr c) = UOk r2 /\
+    builtin_convert (ANum v) (AStr a) (AStr c) = UOk r3 /\
+    (Rabs (Rv r2 - Rv r3) <= (qq ^ 6 - 1) * Rabs (Rv r3))%R.
+Proof. exact builtin_composition_float. Qed.
+Check C17_builtin_composition_float : forall a b c ua ub uc v,
+  resolve_unit a = UOk ua -> resolve_unit b = UOk ub -> resolve_unit c = UOk uc ->
+  u_cat ua = u_cat ub -> u_cat ub = u_cat uc ->
+  is_lr ua = true -> is_lr ub = true -> is_lr uc = true -> fin v -> win (- Kv) Kv (Rv v) ->
+  exists r1 r2 r3,
+    builtin_convert (ANum v) (AStr a) (AStr b) = UOk r1 /\
+    builtin_convert (ANum r1) (AStr b) (AStr c) = UOk r2 /\
+    builtin_convert (ANum v) (AStr a) (AStr c) = UOk r3 /\
+    (Rabs (Rv r2 - Rv r3) <= (qq ^ 6 - 1) * Rabs (Rv r3))%R.
+Print Assumptions C17_builtin_composition_float.
+
+(* ---- composition for the temperature kind too (beyond the assignment): fl(A->B->C) and fl(A->C) both approximate
+   the same exact value; [tcomp_bound ta tb tc a] = 2^-53 * (1 + 1/1024) * (A * a + B), 27 constant pairs (A, B) by
+   the to_kelvin functions of A, B, C (coq/proofs/UnitsFloat2.v: tcomp_A, tcomp_B) *)
+Theorem C17_composition_float_temperature : forall ua ub uc ta fa tb fb tc fc v,
+  u_conv ua = Temperature ta fa -> u_conv ub = Temperature tb fb -> u_conv uc = Temperature tc fc ->
+  inverse_pair ta fa = true -> inverse_pair tb fb = true -> inverse_pair tc fc = true ->
+  finz v -> (Rabs (Rv v) <= bpow radix2 1000)%R ->
+  let r_ab := through_base fl v ua ub in
+  let r_abc := through_base fl r_ab ub uc in
+  let r_ac := through_base fl v ua uc in
+  finz r_abc /\ finz r_ac /\ (Rabs (Rv r_abc - Rv r_ac) <= tcomp_bound ta tb tc (Rabs (Rv v)))%R.
+Proof. exact composition_float_temperature. Qed.
+Check C17_composition_float_temperature : forall ua ub uc ta fa tb fb tc fc v,
+  u_conv ua = Temperature ta fa -> u_conv ub = Temperature tb fb -> u_conv uc = Temperature tc fc ->
+  inverse_pair ta fa = true -> inverse_pair tb fb = true -> inverse_pair tc fc = true ->
+  finz v -> (Rabs (Rv v) <= bpow radix2 1000)%R ->
+  let r_ab := through_base fl v ua ub in
+  let r_abc := through_base fl r_ab ub uc in
+  let r_ac := through_base fl v ua uc in
+  finz r_abc /\ finz r_ac /\ (Rabs (Rv r_abc - Rv r_ac) <= tcomp_bound ta tb tc (Rabs (Rv v)))%R.
+Print Assumptions C17_composition_float_temperature.
+
+Theorem C17_builtin_composition_temperature : forall a b c ua ub uc ta fa tb fb tc fc v,
+  resolve_unit a = UOk ua -> resolve_unit b = UOk ub -> resolve_unit c = UOk uc ->
+  u_cat ua = u_cat ub -> u_cat ub = u_cat uc ->
+  u_conv ua = Temperature ta fa -> u_conv ub = Temperature tb fb -> u_conv uc = Temperature tc fc ->
+  finz v -> (Rabs (Rv v) <= bpow radix2 1000)%R ->
+  exists r1 r2 r3,
+    builtin_convert (ANum v) (AStr a) (AStr b) = UOk r1 /\
+    builtin_convert (ANum r1) (AStr b) (AStr c) = UOk r2 /\
+    builtin_convert (ANum v) (AStr a) (AStr c) = UOk r3 /\
+    (Rabs (Rv r2 - Rv r3) <= tcomp_bound ta tb tc (Rabs (Rv v)))%R.
+Proof. exact builtin_composition_temperature. Qed.
+Check C17_builtin_composition_temperature : forall a b c ua ub uc ta fa tb fb tc fc v,
+  resolve_unit a = UOk ua -> resolve_unit b = UOk ub -> resolve_unit c = UOk uc ->
+  u_cat ua = u_cat ub -> u_cat ub = u_cat uc ->
+  u_conv ua = Temperature ta fa -> u_conv ub = Temperature tb fb -> u_conv uc = Temperature tc fc ->
+  finz v -> (Rabs (Rv v) <= bpow radix2 1000)%R ->
+  exists r1 r2 r3,
+    builtin_convert (ANum v) (AStr a) (AStr b) = UOk r1 /\
+    builtin_convert (ANum r1) (AStr b) (AStr c) = UOk r2 /\
+    builtin_convert (ANum v) (AStr a) (AStr c) = UOk r3 /\
+    (Rabs (Rv r2 - Rv r3) <= tcomp_bound ta tb tc (Rabs (Rv v)))%R.
+Print Assumptions C17_builtin_composition_temperature.
+Example C17_tcomp_bound_constants :
+  (tcomp_bound TF_celsius_to_kelvin TF_fahrenheit_to_kelvin TF_kelvin_to_kelvin 1 = u53 * (1 + / 1024) * (10 * 1 + 4769) /\
+   tcomp_bound TF_fahrenheit_to_kelvin TF_celsius_to_kelvin TF_kelvin_to_kelvin 1 = u53 * (1 + / 1024) * (6 * 1 + 1544) /\
+   tcomp_bound TF_kelvin_to_kelvin TF_celsius_to_kelvin TF_fahrenheit_to_kelvin 1 = u53 * (1 + / 1024) * (18 * 1 + 4490))%R.
+Proof. repeat split; reflexivity. Qed.
+
+(* ---- the same on a much wider window: 2^-800 <= |v| <= 2^800 ([Kw] = 800; exhaustive over the table like the
+   2^-40 .. 2^40 statements above, which are the ones the assignment asked for and stay valid for tables with far larger
+   coefficient ratios) *)
+
+Theorem C17_table_ranges_ok_wide : forall ua ub,
+  In ua all_units -> In ub all_units -> u_cat ua = u_cat ub -> is_lr ua = true -> is_lr ub = true ->
+  fin (cnum ua) /\ fin (cnum ub) /\ tab_ok ua ub (- Kw, Kw) = true.
+Proof. exact table_pair_wide. Qed.
+Check C17_table_ranges_ok_wide : forall ua ub,
+  In ua all_units -> In ub all_units -> u_cat ua = u_cat ub -> is_lr ua = true -> is_lr ub = true ->
+  fin (cnum ua) /\ fin (cnum ub) /\ tab_ok ua ub (- Kw, Kw) = true.
+Print Assumptions C17_table_ranges_ok_wide.
+
+Theorem C17_table_ranges_ok_triples_wide : forall ua ub uc,
+  In ua all_units -> In ub all_units -> In uc all_units -> u_cat ua = u_cat ub -> u_cat ub = u_cat uc ->
+  is_lr ua = true -> is_lr ub = true -> is_lr uc = true -> comp_ok ua ub uc (- Kw, Kw) = true.
+Proof. exact table_triple_wide. Qed.
+Check C17_table_ranges_ok_triples_wide : forall ua ub uc,
+  In ua all_units -> In ub all_units -> In uc all_units -> u_cat ua = u_cat ub -> u_cat ub = u_cat uc ->
+  is_lr ua = true -> is_lr ub = true -> is_lr uc = true -> comp_ok ua ub uc (- Kw, Kw) = true.
+Print Assumptions C17_table_ranges_ok_triples_wide.
+
+Theorem C17_there_and_back_float_linear_table_wide : forall ua ub la lb v,
+  In ua all_units -> In ub all_units -> u_cat ua = u_cat ub ->
+  u_conv ua = Linear la -> u_conv ub = Linear lb ->
+  fin v -> win (- Kw) Kw (Rv v) ->
+  let r2 := through_base fl v ua ub in
+  let r4 := through_base fl r2 ub ua in
+  exists e1 e2 e3 e4,
+    (Rabs e1 <= u53 /\ Rabs e2 <= u53 /\ Rabs e3 <= u53 /\ Rabs e4 <= u53 /\
+    Rv r4 = Rv v * ((1 + e1) * (1 + e2) * (1 + e3) * (1 + e4)) /\
+    Rabs (Rv r4 - Rv v) <= ((1 + u53) * (1 + u53) * (1 + u53) * (1 + u53) - 1) * Rabs (Rv v))%R.
+Proof. exact there_and_back_float_linear_table_wide. Qed.
+Check C17_there_and_back_float_linear_table_wide : forall ua ub la lb v,
+  In ua all_units -> In ub all_units -> u_cat ua = u_cat ub ->
+  u_conv ua = Linear la -> u_conv ub = Linear lb ->
+  fin v -> win (- Kw) Kw (Rv v) ->
+  let r2 := through_base fl v ua ub in
+  let r4 := through_base fl r2 ub ua in
+  exists e1 e2 e3 e4,
+    (Rabs e1 <= u53 /\ Rabs e2 <= u53 /\ Rabs e3 <= u53 /\ Rabs e4 <= u53 /\
+    Rv r4 = Rv v * ((1 + e1) * (1 + e2) * (1 + e3) * (1 + e4)) /\
+    Rabs (Rv r4 - Rv v) <= ((1 + u53) * (1 + u53) * (1 + u53) * (1 + u53) - 1) * Rabs (Rv v))%R.
+Print Assumptions C17_there_and_back_float_linear_table_wide.
+
+Theorem C17_builtin_there_and_back_float_wide : forall a b ua ub v,
+  resolve_unit a = UOk ua -> resolve_unit b = UOk ub -> u_cat ua = u_cat ub ->
+  fin v -> win (- Kw) Kw (Rv v) ->
+  exists r1 r2,
+    builtin_convert (ANum v) (AStr a) (AStr b) = UOk r1 /\
+    builtin_convert (ANum r1) (AStr b) (AStr a) = UOk r2 /\
+    (Rabs (Rv r2 - Rv v) <= tab_bound ua ub (Rabs (Rv v)))%R.
+Proof. exact builtin_there_and_back_all_kinds_wide. Qed.
+Check C17_builtin_there_and_back_float_wide : forall a b ua ub v,
+  resolve_unit a = UOk ua -> resolve_unit b = UOk ub -> u_cat ua = u_cat ub ->
+  fin v -> win (- Kw) Kw (Rv v) ->
+  exists r1 r2,
+    builtin_convert (ANum v) (AStr a) (AStr b) = UOk r1 /\
+    builtin_convert (ANum r1) (AStr b) (AStr a) = UOk r2 /\
+    (Rabs (Rv r2 - Rv v) <= tab_bound ua ub (Rabs (Rv v)))%R.
+Print Assumptions C17_builtin_there_and_back_float_wide.
+
+Theorem C17_builtin_composition_float_wide : forall a b c ua ub uc v,
+  resolve_unit a = UOk ua -> resolve_unit b = UOk ub -> resolve_unit c = UOk uc ->
+  u_cat ua = u_cat ub -> u_cat ub = u_cat uc ->
+  is_lr ua = true -> is_lr ub = true -> is_lr uc = true -> fin v -> win (- Kw) Kw (Rv v) ->
+  exists r1 r2 r3,
+    builtin_convert (ANum v) (AStr a) (AStr b) = UOk r1 /\
+    builtin_convert (ANum r1) (AStr b) (AStr c) = UOk r2 /\
+    builtin_convert (ANum v) (AStr a) (AStr c) = UOk r3 /\
+    (Rabs (Rv r2 - Rv r3) <= (qq ^ 6 - 1) * Rabs (Rv r3))%R.
+Proof. exact builtin_composition_float_wide. Qed.
+Check C17_builtin_composition_float_wide : forall a b c ua ub uc v,
+  resolve_unit a = UOk ua -> resolve_unit b = UOk ub -> resolve_unit c = UOk uc ->
+  u_cat ua = u_cat ub -> u_cat ub = u_cat uc ->
+  is_lr ua = true -> is_lr ub = true -> is_lr uc = true -> fin v -> win (- Kw) Kw (Rv v) ->
+  exists r1 r2 r3,
+    builtin_convert (ANum v) (AStr a) (AStr b) = UOk r1 /\
+    builtin_convert (ANum r1) (AStr b) (AStr c) = UOk r2 /\
+    builtin_convert (ANum v) (AStr a) (AStr c) = UOk r3 /\
+    (Rabs (Rv r2 - Rv r3) <= (qq ^ 6 - 1) * Rabs (Rv r3))%R.
+Print Assumptions C17_builtin_composition_float_wide.
+
+(* ---- Examples: the hypotheses are decidable and hold on real rows of the table *)
+(* 123456.789 km -> mi -> km (linear/linear), 30 mpg -> l/100km -> mpg (reciprocal/linear),
+   30 mpg -> imp mpg -> mpg (reciprocal/reciprocal) *)
+Example C17_float_hypotheses_hold :
+  lr_hyps_b "km" "mi" = true /\ vwin_b (num_of_bits 0x40fe240c9fbe76c9) = true /\
+  lr_hyps_b "mpg" "l/100km" = true /\ lr_hyps_b "mpg" "imp mpg" = true /\ vwin_b (num_of_bits 0x403e000000000000) = true.
+Proof. vm_compute. repeat split; reflexivity. Qed.
+Example C17_float_example_km_mi :
+  let v := num_of_bits 0x40fe240c9fbe76c9 in
+  exists r1 r2,
+    builtin_convert (ANum v) (AStr "km") (AStr "mi") = UOk r1 /\
+    builtin_convert (ANum r1) (AStr "mi") (AStr "km") = UOk r2 /\
+    (Rabs (Rv r2 - Rv v) <= (qq ^ 4 - 1) * Rabs (Rv v))%R.
+Proof.
+  intros v.
+  destruct (lr_hyps_b_ok "km" "mi") as [ua [ub [Ra [Rb [C [La Lb]]]]]]; [vm_compute; reflexivity|].
+  destruct (vwin_b_ok v) as [Fv Wv]; [vm_compute; reflexivity|].
+  exact (builtin_there_and_back_float "km" "mi" ua ub v Ra Rb C La Lb Fv Wv).
+Qed.
+Example C17_float_example_mpg :
+  let v := num_of_bits 0x403e000000000000 in
+  exists r1 r2,
+    builtin_convert (ANum v) (AStr "mpg") (AStr "l/100km") = UOk r1 /\
+    builtin_convert (ANum r1) (AStr "l/100km") (AStr "mpg") = UOk r2 /\
+    (Rabs (Rv r2 - Rv v) <= (qq ^ 4 - 1) * Rabs (Rv v))%R.
+Proof.
+  intros v.
+  destruct (lr_hyps_b_ok "mpg" "l/100km") as [ua [ub [Ra [Rb [C [La Lb]]]]]]; [vm_compute; reflexivity|].
+  destruct (vwin_b_ok v) as [Fv Wv]; [vm_compute; reflexivity|].
+  exact (builtin_there_and_back_float "mpg" "l/100km" ua ub v Ra Rb C La Lb Fv Wv).
+Qed.
+Example C17_float_example_composition :
+  let v := num_of_bits 0x40fe240c9fbe76c9 in
+  exists r1 r2 r3,
+    builtin_convert (ANum v) (AStr "km") (AStr "mi") = UOk r1 /\
+    builtin_convert (ANum r1) (AStr "mi") (AStr "ft") = UOk r2 /\
+    builtin_convert (ANum v) (AStr "km") (AStr "ft") = UOk r3 /\
+    (Rabs (Rv r2 - Rv r3) <= (qq ^ 6 - 1) * Rabs (Rv r3))%R.
+Proof.
+  intros v.
+  destruct (lr_hyps_b_ok "km" "mi") as [ua [ub [Ra [Rb [C [La Lb]]]]]]; [vm_compute; reflexivity|].
+  destruct (lr_hyps_b_ok "mi" "ft") as [ub' [uc [Rb' [Rc [C' [_ Lc]]]]]]; [vm_compute; reflexivity|].
+  rewrite Rb in Rb'. injection Rb' as <-.
+  destruct (vwin_b_ok v) as [Fv Wv]; [vm_compute; reflexivity|].
+  exact (builtin_composition_float "km" "mi" "ft" ua ub uc v Ra Rb Rc C C' La Lb Lc Fv Wv).
+Qed.
+(* -40 C -> F -> C, and the offset itself: -273.15 C -> K -> C *)
+Example C17_float_example_temperature :
+  let v := num_of_bits 0xc044000000000000 in
+  exists r1 r2,
+    builtin_convert (ANum v) (AStr "celsius") (AStr "fahrenheit") = UOk r1 /\
+    builtin_convert (ANum r1) (AStr "fahrenheit") (AStr "celsius") = UOk r2 /\
+    (Rabs (Rv r2 - Rv v) <= temp_bound TF_celsius_to_kelvin TF_fahrenheit_to_kelvin (Rabs (Rv v)))%R.
+Proof.
+  intros v.
+  destruct (resolve_unit "celsius") as [ua|] eqn:Ra; [|vm_compute in Ra; discriminate].
+  destruct (resolve_unit "fahrenheit") as [ub|] eqn:Rb; [|vm_compute in Rb; discriminate].
+  pose proof Ra as Ea. vm_compute in Ea. injection Ea as Ea.
+  pose proof Rb as Eb. vm_compute in Eb. injection Eb as Eb.
+  assert (Ca : u_conv ua = Temperature TF_celsius_to_kelvin TF_kelvin_to_celsius) by (rewrite <- Ea; reflexivity).
+  assert (Cb : u_conv ub = Temperature TF_fahrenheit_to_kelvin TF_kelvin_to_fahrenheit) by (rewrite <- Eb; reflexivity).
+  assert (C : u_cat ua = u_cat ub) by (rewrite <- Ea, <- Eb; reflexivity).
+  apply (builtin_there_and_back_temperature "celsius" "fahrenheit" ua ub _ _ _ _ v Ra Rb C Ca Cb).
+  - split; reflexivity.
+  - destruct (vwin_b_ok v) as [_ [_ W]]; [vm_compute; reflexivity|].
+    eapply Rle_trans; [exact W|apply bpow_le; discriminate].
+Qed.
